@@ -1,4 +1,832 @@
-//! Interpreter stub for executing emitted modules (C16-C20). Filled in below.
+//! A small deterministic interpreter over decoded modules (`ModuleSpec`), covering exactly the
+//! instruction subset the executed-program generator emits. It is a stub for a production engine:
+//! original and instrumented modules run on the same interpreter and every oracle is phrased over
+//! host-call traces. Anything outside the subset is a harness error, never a violation.
+use crate::ins::{Ins, MemOp, MemShape, Simple, BT, VT};
+use crate::model::func_magic_of;
+use crate::spec::*;
+
+#[derive(Clone, Copy, Debug, PartialEq, Eq)]
+pub enum Val {
+    I32(i32),
+    I64(i64),
+    F32(u32),
+    F64(u64),
+    V128(u128),
+    Ref(Option<u32>),
+}
+impl Val {
+    pub fn default_of(t: VT) -> Val {
+        match t {
+            VT::I32 => Val::I32(0),
+            VT::I64 => Val::I64(0),
+            VT::F32 => Val::F32(0),
+            VT::F64 => Val::F64(0),
+            VT::V128 => Val::V128(0),
+            VT::FuncRef | VT::ExternRef => Val::Ref(None),
+        }
+    }
+}
+
+#[derive(Clone, Debug, PartialEq, Eq)]
+pub enum Trap {
+    Unreachable,
+    DivZero,
+    Overflow,
+    Oob,
+    Host,
+    Depth,
+}
+
+#[derive(Clone, Debug, PartialEq, Eq)]
+pub enum LeaveHow {
+    Normal,
+    Trap(Trap),
+}
+
+#[derive(Clone, Debug, PartialEq, Eq)]
+pub enum Ev {
+    Mark(i32),
+    Probe(i32),
+    Choose(i32),
+    Sink(i64),
+    Enter(i64),
+    Leave(i64, LeaveHow),
+}
+
+#[derive(Debug)]
+pub enum Stop {
+    Trap(Trap),
+    /// step cap / unsupported instruction: the run is discarded (never a violation)
+    Cap,
+    Harness(String),
+}
+
+pub struct Host {
+    pub trace: Vec<Ev>,
+    pub tape: Vec<i32>,
+    pub tape_pos: usize,
+    /// the n-th mark/choose call traps (fault injection); counted over mark+choose only
+    pub trap_at: Option<usize>,
+    pub host_calls: usize,
+}
+
+pub struct Instance<'a> {
+    pub m: &'a ModuleSpec,
+    pub types: Vec<&'a SubT>,
+    pub n_imp_funcs: u32,
+    pub imp_names: Vec<String>,
+    pub globals: Vec<Val>,
+    pub mems: Vec<Vec<u8>>,
+    pub steps: u64,
+    pub step_cap: u64,
+    /// per local function: matching positions (opener -> (else, end))
+    pub ctrl: Vec<Vec<(usize, Option<usize>, usize)>>,
+    pub host: Host,
+}
+
+#[derive(Clone, Copy)]
+struct Label {
+    is_loop: bool,
+    start: usize,
+    end: usize,
+    height: usize,
+    arity: usize,
+}
+
+fn build_ctrl(body: &[Ins]) -> Result<Vec<(usize, Option<usize>, usize)>, String> {
+    let mut v = vec![];
+    let mut stack: Vec<usize> = vec![];
+    for (i, ins) in body.iter().enumerate() {
+        match ins {
+            Ins::Block(_) | Ins::Loop(_) | Ins::If(_) => {
+                stack.push(v.len());
+                v.push((i, None, usize::MAX));
+            }
+            Ins::Else => {
+                let k = *stack.last().ok_or("else without if")?;
+                v[k].1 = Some(i);
+            }
+            Ins::End => {
+                if let Some(k) = stack.pop() {
+                    v[k].2 = i;
+                }
+            }
+            _ => {}
+        }
+    }
+    Ok(v)
+}
+
+impl<'a> Instance<'a> {
+    pub fn new(m: &'a ModuleSpec, tape: Vec<i32>, trap_at: Option<usize>, step_cap: u64) -> Result<Instance<'a>, String> {
+        let types = m.flat_types();
+        let mut imp_names = vec![];
+        let mut globals = vec![];
+        let mut mems = vec![];
+        for i in &m.imports {
+            match &i.kind {
+                ImpKind::Func(_) => imp_names.push(i.name.clone()),
+                ImpKind::Global { ty, .. } => globals.push(Val::default_of(*ty)),
+                ImpKind::Memory(t) => mems.push(vec![0u8; (t.min.min(4) as usize) * 65536]),
+                _ => {}
+            }
+        }
+        for g in &m.globals {
+            globals.push(match &g.init {
+                ConstE::I32(v) => Val::I32(*v),
+                ConstE::I64(v) => Val::I64(*v),
+                ConstE::F32(v) => Val::F32(*v),
+                ConstE::F64(v) => Val::F64(*v),
+                ConstE::V128(v) => Val::V128(*v),
+                ConstE::GlobalGet(i) => *globals.get(*i as usize).ok_or("global.get init out of range")?,
+                ConstE::RefFunc(f) => Val::Ref(Some(*f)),
+                ConstE::RefNull(_) => Val::Ref(None),
+                ConstE::ExtAdd(a, b) => Val::I32(a.wrapping_add(*b)),
+            });
+        }
+        for t in &m.memories {
+            mems.push(vec![0u8; (t.min.min(4) as usize) * 65536]);
+        }
+        for d in &m.data {
+            if let DataMode::Active { mem, offset } = &d.mode {
+                let off = match offset {
+                    ConstE::I32(v) => *v as u32 as usize,
+                    ConstE::I64(v) => *v as usize,
+                    _ => return Err("unsupported data offset".into()),
+                };
+                let mm = mems.get_mut(*mem as usize).ok_or("data memory")?;
+                if off + d.bytes.len() > mm.len() {
+                    return Err("data segment out of bounds".into());
+                }
+                mm[off..off + d.bytes.len()].copy_from_slice(&d.bytes);
+            }
+        }
+        let mut ctrl = vec![];
+        for f in &m.funcs {
+            ctrl.push(build_ctrl(&f.body)?);
+        }
+        Ok(Instance {
+            m,
+            types,
+            n_imp_funcs: imp_names.len() as u32,
+            imp_names,
+            globals,
+            mems,
+            steps: 0,
+            step_cap,
+            ctrl,
+            host: Host {
+                trace: vec![],
+                tape,
+                tape_pos: 0,
+                trap_at,
+                host_calls: 0,
+            },
+        })
+    }
+
+    fn sig(&self, ty: u32) -> Result<(Vec<VT>, Vec<VT>), String> {
+        match self.types.get(ty as usize).map(|t| &t.comp) {
+            Some(Comp::Func(p, r)) => Ok((p.clone(), r.clone())),
+            _ => Err(format!("type {ty} is not a function type")),
+        }
+    }
+
+    fn bt_arity(&self, bt: BT) -> Result<(usize, usize), String> {
+        Ok(match bt {
+            BT::Empty => (0, 0),
+            BT::Val(_) => (0, 1),
+            BT::Func(t) => {
+                let (p, r) = self.sig(t)?;
+                (p.len(), r.len())
+            }
+        })
+    }
+
+    fn host_call(&mut self, name: &str, args: &[Val]) -> Result<Vec<Val>, Stop> {
+        let counted = name == "mark" || name == "choose";
+        if counted {
+            self.host.host_calls += 1;
+            if self.host.trap_at == Some(self.host.host_calls) {
+                return Err(Stop::Trap(Trap::Host));
+            }
+        }
+        match (name, args) {
+            ("mark", [Val::I32(k)]) => {
+                self.host.trace.push(Ev::Mark(*k));
+                Ok(vec![])
+            }
+            ("probe", [Val::I32(k)]) => {
+                self.host.trace.push(Ev::Probe(*k));
+                Ok(vec![])
+            }
+            ("choose", []) => {
+                let v = self.host.tape.get(self.host.tape_pos).copied().unwrap_or(0);
+                self.host.tape_pos += 1;
+                self.host.trace.push(Ev::Choose(v));
+                Ok(vec![Val::I32(v)])
+            }
+            ("sink", [Val::I64(v)]) => {
+                self.host.trace.push(Ev::Sink(*v));
+                Ok(vec![])
+            }
+            _ => Err(Stop::Harness(format!("unknown host import {name} {:?}", args))),
+        }
+    }
+
+    pub fn call(&mut self, f: u32, args: Vec<Val>, depth: u32) -> Result<Vec<Val>, Stop> {
+        if depth > 150 {
+            return Err(Stop::Trap(Trap::Depth));
+        }
+        if f < self.n_imp_funcs {
+            let name = self.imp_names[f as usize].clone();
+            return self.host_call(&name, &args);
+        }
+        let li = (f - self.n_imp_funcs) as usize;
+        let func = self.m.funcs.get(li).ok_or_else(|| Stop::Harness(format!("call to unknown function {f}")))?;
+        let magic = func_magic_of(&func.body).unwrap_or(-(li as i64) - 1);
+        self.host.trace.push(Ev::Enter(magic));
+        let r = self.run_body(li, args, depth);
+        match &r {
+            Ok(_) => self.host.trace.push(Ev::Leave(magic, LeaveHow::Normal)),
+            Err(Stop::Trap(t)) => self.host.trace.push(Ev::Leave(magic, LeaveHow::Trap(t.clone()))),
+            _ => {}
+        }
+        r
+    }
+
+    fn run_body(&mut self, li: usize, args: Vec<Val>, depth: u32) -> Result<Vec<Val>, Stop> {
+        let m = self.m;
+        let func = &m.funcs[li];
+        let (_, results) = self.sig(func.ty).map_err(Stop::Harness)?;
+        let mut locals = args;
+        for (n, t) in &func.locals {
+            for _ in 0..*n {
+                locals.push(Val::default_of(*t));
+            }
+        }
+        let body = &func.body;
+        let mut stack: Vec<Val> = vec![];
+        let mut labels: Vec<Label> = vec![Label {
+            is_loop: false,
+            start: 0,
+            end: body.len() - 1,
+            height: 0,
+            arity: results.len(),
+        }];
+        let mut pc = 0usize;
+        macro_rules! pop {
+            () => {
+                stack.pop().ok_or_else(|| Stop::Harness("stack underflow".into()))?
+            };
+        }
+        macro_rules! pop_i32 {
+            () => {
+                match pop!() {
+                    Val::I32(v) => v,
+                    other => return Err(Stop::Harness(format!("expected i32, got {:?}", other))),
+                }
+            };
+        }
+        macro_rules! pop_i64 {
+            () => {
+                match pop!() {
+                    Val::I64(v) => v,
+                    other => return Err(Stop::Harness(format!("expected i64, got {:?}", other))),
+                }
+            };
+        }
+        loop {
+            self.steps += 1;
+            if self.steps > self.step_cap {
+                return Err(Stop::Cap);
+            }
+            if pc >= body.len() {
+                break;
+            }
+            let ins = &body[pc];
+            // branch helper: returns new pc or signals function return
+            let mut branch_to: Option<u32> = None;
+            match ins {
+                Ins::Nop => {}
+                Ins::Unreachable => return Err(Stop::Trap(Trap::Unreachable)),
+                Ins::Drop => {
+                    pop!();
+                }
+                Ins::Select => {
+                    let c = pop_i32!();
+                    let b = pop!();
+                    let a = pop!();
+                    stack.push(if c != 0 { a } else { b });
+                }
+                Ins::Return => {
+                    branch_to = Some(labels.len() as u32 - 1);
+                }
+                Ins::Block(bt) | Ins::Loop(bt) => {
+                    let (p, r) = self.bt_arity(*bt).map_err(Stop::Harness)?;
+                    let c = self.ctrl[li].iter().find(|c| c.0 == pc).ok_or_else(|| Stop::Harness("ctrl".into()))?;
+                    let is_loop = matches!(ins, Ins::Loop(_));
+                    labels.push(Label {
+                        is_loop,
+                        start: pc,
+                        end: c.2,
+                        height: stack.len() - p,
+                        arity: if is_loop { p } else { r },
+                    });
+                }
+                Ins::If(bt) => {
+                    let cnd = pop_i32!();
+                    let (p, r) = self.bt_arity(*bt).map_err(Stop::Harness)?;
+                    let c = *self.ctrl[li].iter().find(|c| c.0 == pc).ok_or_else(|| Stop::Harness("ctrl".into()))?;
+                    labels.push(Label {
+                        is_loop: false,
+                        start: pc,
+                        end: c.2,
+                        height: stack.len() - p,
+                        arity: r,
+                    });
+                    if cnd == 0 {
+                        match c.1 {
+                            Some(e) => pc = e, // continue after the else
+                            None => {
+                                // no else: skip to end (which pops the label)
+                                pc = c.2;
+                                continue;
+                            }
+                        }
+                    }
+                }
+                Ins::Else => {
+                    // reached the end of the then-arm: jump to the end
+                    let l = *labels.last().ok_or_else(|| Stop::Harness("else label".into()))?;
+                    pc = l.end;
+                    continue;
+                }
+                Ins::End => {
+                    if labels.len() == 1 {
+                        break;
+                    }
+                    labels.pop();
+                }
+                Ins::Br(d) => branch_to = Some(*d),
+                Ins::BrIf(d) => {
+                    if pop_i32!() != 0 {
+                        branch_to = Some(*d);
+                    }
+                }
+                Ins::BrTable(t, d) => {
+                    let i = pop_i32!() as u32 as usize;
+                    branch_to = Some(*t.get(i).unwrap_or(d));
+                }
+                Ins::Call(f) => {
+                    let ty = m.func_type_of(*f).ok_or_else(|| Stop::Harness("call target".into()))?;
+                    let (p, _) = self.sig(ty).map_err(Stop::Harness)?;
+                    if stack.len() < p.len() {
+                        return Err(Stop::Harness("call args".into()));
+                    }
+                    let args = stack.split_off(stack.len() - p.len());
+                    let r = self.call(*f, args, depth + 1)?;
+                    stack.extend(r);
+                }
+                Ins::ReturnCall(f) => {
+                    let ty = m.func_type_of(*f).ok_or_else(|| Stop::Harness("call target".into()))?;
+                    let (p, _) = self.sig(ty).map_err(Stop::Harness)?;
+                    let args = stack.split_off(stack.len() - p.len());
+                    // modelled as call + return (the trace shows the callee inside the caller)
+                    let r = self.call(*f, args, depth + 1)?;
+                    return Ok(r);
+                }
+                Ins::LocalGet(i) => stack.push(*locals.get(*i as usize).ok_or_else(|| Stop::Harness("local".into()))?),
+                Ins::LocalSet(i) => {
+                    let v = pop!();
+                    *locals.get_mut(*i as usize).ok_or_else(|| Stop::Harness("local".into()))? = v;
+                }
+                Ins::LocalTee(i) => {
+                    let v = *stack.last().ok_or_else(|| Stop::Harness("tee".into()))?;
+                    *locals.get_mut(*i as usize).ok_or_else(|| Stop::Harness("local".into()))? = v;
+                }
+                Ins::GlobalGet(i) => stack.push(*self.globals.get(*i as usize).ok_or_else(|| Stop::Harness("global".into()))?),
+                Ins::GlobalSet(i) => {
+                    let v = pop!();
+                    *self.globals.get_mut(*i as usize).ok_or_else(|| Stop::Harness("global".into()))? = v;
+                }
+                Ins::I32Const(v) => stack.push(Val::I32(*v)),
+                Ins::I64Const(v) => stack.push(Val::I64(*v)),
+                Ins::F32Const(v) => stack.push(Val::F32(*v)),
+                Ins::F64Const(v) => stack.push(Val::F64(*v)),
+                Ins::V128Const(v) => stack.push(Val::V128(*v)),
+                Ins::RefNull(_) => stack.push(Val::Ref(None)),
+                Ins::RefFunc(f) => stack.push(Val::Ref(Some(*f))),
+                Ins::S(op) => {
+                    use Simple::*;
+                    match op {
+                        I32Eqz => {
+                            let a = pop_i32!();
+                            stack.push(Val::I32((a == 0) as i32));
+                        }
+                        I64Eqz => {
+                            let a = pop_i64!();
+                            stack.push(Val::I32((a == 0) as i32));
+                        }
+                        I32Clz | I32Ctz | I32Popcnt | I32Extend8S | I32Extend16S => {
+                            let a = pop_i32!();
+                            stack.push(Val::I32(match op {
+                                I32Clz => a.leading_zeros() as i32,
+                                I32Ctz => a.trailing_zeros() as i32,
+                                I32Popcnt => a.count_ones() as i32,
+                                I32Extend8S => a as i8 as i32,
+                                _ => a as i16 as i32,
+                            }));
+                        }
+                        I64Clz | I64Ctz | I64Popcnt | I64Extend8S | I64Extend16S | I64Extend32S => {
+                            let a = pop_i64!();
+                            stack.push(Val::I64(match op {
+                                I64Clz => a.leading_zeros() as i64,
+                                I64Ctz => a.trailing_zeros() as i64,
+                                I64Popcnt => a.count_ones() as i64,
+                                I64Extend8S => a as i8 as i64,
+                                I64Extend16S => a as i16 as i64,
+                                _ => a as i32 as i64,
+                            }));
+                        }
+                        I32WrapI64 => {
+                            let a = pop_i64!();
+                            stack.push(Val::I32(a as i32));
+                        }
+                        I64ExtendI32S => {
+                            let a = pop_i32!();
+                            stack.push(Val::I64(a as i64));
+                        }
+                        I64ExtendI32U => {
+                            let a = pop_i32!();
+                            stack.push(Val::I64(a as u32 as i64));
+                        }
+                        RefIsNull => {
+                            let a = pop!();
+                            stack.push(Val::I32(matches!(a, Val::Ref(None)) as i32));
+                        }
+                        I32Eq | I32Ne | I32LtS | I32LtU | I32GtS | I32GtU | I32LeS | I32LeU | I32GeS | I32GeU | I32Add
+                        | I32Sub | I32Mul | I32DivS | I32DivU | I32RemS | I32RemU | I32And | I32Or | I32Xor | I32Shl
+                        | I32ShrS | I32ShrU | I32Rotl | I32Rotr => {
+                            let b = pop_i32!();
+                            let a = pop_i32!();
+                            let (ua, ub) = (a as u32, b as u32);
+                            let r = match op {
+                                I32Eq => (a == b) as i32,
+                                I32Ne => (a != b) as i32,
+                                I32LtS => (a < b) as i32,
+                                I32LtU => (ua < ub) as i32,
+                                I32GtS => (a > b) as i32,
+                                I32GtU => (ua > ub) as i32,
+                                I32LeS => (a <= b) as i32,
+                                I32LeU => (ua <= ub) as i32,
+                                I32GeS => (a >= b) as i32,
+                                I32GeU => (ua >= ub) as i32,
+                                I32Add => a.wrapping_add(b),
+                                I32Sub => a.wrapping_sub(b),
+                                I32Mul => a.wrapping_mul(b),
+                                I32DivS => {
+                                    if b == 0 {
+                                        return Err(Stop::Trap(Trap::DivZero));
+                                    }
+                                    if a == i32::MIN && b == -1 {
+                                        return Err(Stop::Trap(Trap::Overflow));
+                                    }
+                                    a.wrapping_div(b)
+                                }
+                                I32DivU => {
+                                    if b == 0 {
+                                        return Err(Stop::Trap(Trap::DivZero));
+                                    }
+                                    (ua / ub) as i32
+                                }
+                                I32RemS => {
+                                    if b == 0 {
+                                        return Err(Stop::Trap(Trap::DivZero));
+                                    }
+                                    a.wrapping_rem(b)
+                                }
+                                I32RemU => {
+                                    if b == 0 {
+                                        return Err(Stop::Trap(Trap::DivZero));
+                                    }
+                                    (ua % ub) as i32
+                                }
+                                I32And => a & b,
+                                I32Or => a | b,
+                                I32Xor => a ^ b,
+                                I32Shl => a.wrapping_shl(ub),
+                                I32ShrS => a.wrapping_shr(ub),
+                                I32ShrU => ua.wrapping_shr(ub) as i32,
+                                I32Rotl => ua.rotate_left(ub & 31) as i32,
+                                _ => ua.rotate_right(ub & 31) as i32,
+                            };
+                            stack.push(Val::I32(r));
+                        }
+                        I64Eq | I64Ne | I64LtS | I64LtU | I64GtS | I64GtU | I64LeS | I64LeU | I64GeS | I64GeU => {
+                            let b = pop_i64!();
+                            let a = pop_i64!();
+                            let (ua, ub) = (a as u64, b as u64);
+                            stack.push(Val::I32(match op {
+                                I64Eq => a == b,
+                                I64Ne => a != b,
+                                I64LtS => a < b,
+                                I64LtU => ua < ub,
+                                I64GtS => a > b,
+                                I64GtU => ua > ub,
+                                I64LeS => a <= b,
+                                I64LeU => ua <= ub,
+                                I64GeS => a >= b,
+                                _ => ua >= ub,
+                            } as i32));
+                        }
+                        I64Add | I64Sub | I64Mul | I64DivS | I64DivU | I64RemS | I64RemU | I64And | I64Or | I64Xor | I64Shl
+                        | I64ShrS | I64ShrU | I64Rotl | I64Rotr => {
+                            let b = pop_i64!();
+                            let a = pop_i64!();
+                            let (ua, ub) = (a as u64, b as u64);
+                            let r = match op {
+                                I64Add => a.wrapping_add(b),
+                                I64Sub => a.wrapping_sub(b),
+                                I64Mul => a.wrapping_mul(b),
+                                I64DivS => {
+                                    if b == 0 {
+                                        return Err(Stop::Trap(Trap::DivZero));
+                                    }
+                                    if a == i64::MIN && b == -1 {
+                                        return Err(Stop::Trap(Trap::Overflow));
+                                    }
+                                    a.wrapping_div(b)
+                                }
+                                I64DivU => {
+                                    if b == 0 {
+                                        return Err(Stop::Trap(Trap::DivZero));
+                                    }
+                                    (ua / ub) as i64
+                                }
+                                I64RemS => {
+                                    if b == 0 {
+                                        return Err(Stop::Trap(Trap::DivZero));
+                                    }
+                                    a.wrapping_rem(b)
+                                }
+                                I64RemU => {
+                                    if b == 0 {
+                                        return Err(Stop::Trap(Trap::DivZero));
+                                    }
+                                    (ua % ub) as i64
+                                }
+                                I64And => a & b,
+                                I64Or => a | b,
+                                I64Xor => a ^ b,
+                                I64Shl => a.wrapping_shl(ub as u32),
+                                I64ShrS => a.wrapping_shr(ub as u32),
+                                I64ShrU => ua.wrapping_shr(ub as u32) as i64,
+                                I64Rotl => ua.rotate_left((ub & 63) as u32) as i64,
+                                _ => ua.rotate_right((ub & 63) as u32) as i64,
+                            };
+                            stack.push(Val::I64(r));
+                        }
+                        other => return Err(Stop::Harness(format!("unsupported simple op {:?}", other))),
+                    }
+                }
+                Ins::Mem(op, ma) => {
+                    let (shape, _, atomic) = op.info();
+                    if atomic {
+                        return Err(Stop::Harness("atomic op in executed program".into()));
+                    }
+                    let width = match op {
+                        MemOp::I32Load | MemOp::I32Store | MemOp::I64Load32S | MemOp::I64Load32U | MemOp::I64Store32 => 4,
+                        MemOp::I64Load | MemOp::I64Store => 8,
+                        MemOp::I32Load8S | MemOp::I32Load8U | MemOp::I32Store8 | MemOp::I64Load8S | MemOp::I64Load8U | MemOp::I64Store8 => 1,
+                        MemOp::I32Load16S | MemOp::I32Load16U | MemOp::I32Store16 | MemOp::I64Load16S | MemOp::I64Load16U | MemOp::I64Store16 => 2,
+                        other => return Err(Stop::Harness(format!("unsupported mem op {:?}", other))),
+                    };
+                    let signed = matches!(
+                        op,
+                        MemOp::I32Load8S | MemOp::I32Load16S | MemOp::I64Load8S | MemOp::I64Load16S | MemOp::I64Load32S
+                    );
+                    match shape {
+                        MemShape::Load(t) => {
+                            let a = pop_i32!() as u32 as u64 + ma.offset;
+                            let mem = self.mems.get(ma.mem as usize).ok_or_else(|| Stop::Harness("memory".into()))?;
+                            if a + width as u64 > mem.len() as u64 {
+                                return Err(Stop::Trap(Trap::Oob));
+                            }
+                            let mut buf = [0u8; 8];
+                            buf[..width].copy_from_slice(&mem[a as usize..a as usize + width]);
+                            let mut v = u64::from_le_bytes(buf);
+                            if signed {
+                                let sh = 64 - 8 * width as u32;
+                                v = (((v << sh) as i64) >> sh) as u64;
+                            }
+                            stack.push(if t == VT::I32 { Val::I32(v as i32) } else { Val::I64(v as i64) });
+                        }
+                        MemShape::Store(t) => {
+                            let v = if t == VT::I32 { pop_i32!() as u32 as u64 } else { pop_i64!() as u64 };
+                            let a = pop_i32!() as u32 as u64 + ma.offset;
+                            let mem = self.mems.get_mut(ma.mem as usize).ok_or_else(|| Stop::Harness("memory".into()))?;
+                            if a + width as u64 > mem.len() as u64 {
+                                return Err(Stop::Trap(Trap::Oob));
+                            }
+                            mem[a as usize..a as usize + width].copy_from_slice(&v.to_le_bytes()[..width]);
+                        }
+                        _ => return Err(Stop::Harness("mem shape".into())),
+                    }
+                }
+                Ins::MemorySize(mm) => {
+                    let n = self.mems.get(*mm as usize).ok_or_else(|| Stop::Harness("memory".into()))?.len() / 65536;
+                    stack.push(Val::I32(n as i32));
+                }
+                Ins::MemoryGrow(mm) => {
+                    let d = pop_i32!() as u32 as usize;
+                    let mem = self.mems.get_mut(*mm as usize).ok_or_else(|| Stop::Harness("memory".into()))?;
+                    let old = mem.len() / 65536;
+                    if old + d > 4 {
+                        stack.push(Val::I32(-1));
+                    } else {
+                        mem.resize((old + d) * 65536, 0);
+                        stack.push(Val::I32(old as i32));
+                    }
+                }
+                other => return Err(Stop::Harness(format!("unsupported instruction {:?}", other))),
+            }
+            if let Some(d) = branch_to {
+                let d = d as usize;
+                if d >= labels.len() {
+                    return Err(Stop::Harness("branch depth".into()));
+                }
+                let target = labels[labels.len() - 1 - d];
+                if stack.len() < target.arity {
+                    return Err(Stop::Harness("branch arity".into()));
+                }
+                let vals = stack.split_off(stack.len() - target.arity);
+                stack.truncate(target.height);
+                stack.extend(vals);
+                if d == labels.len() - 1 {
+                    // the function label: return
+                    break;
+                }
+                if target.is_loop {
+                    labels.truncate(labels.len() - d);
+                    pc = target.start + 1;
+                } else {
+                    labels.truncate(labels.len() - 1 - d);
+                    pc = target.end + 1;
+                }
+                continue;
+            }
+            pc += 1;
+        }
+        if stack.len() < results.len() {
+            return Err(Stop::Harness(format!("function result stack {} < {}", stack.len(), results.len())));
+        }
+        Ok(stack.split_off(stack.len() - results.len()))
+    }
+}
+
+pub struct RunOut {
+    pub result: Result<Vec<Val>, Stop>,
+    pub trace: Vec<Ev>,
+    pub globals: Vec<Val>,
+    pub mem_digest: u64,
+    pub steps: u64,
+}
+
+/// Instantiate and call the exported function `export` with `args`.
+pub fn run_export(m: &ModuleSpec, export: &str, args: Vec<Val>, tape: Vec<i32>, trap_at: Option<usize>, cap: u64) -> Result<RunOut, String> {
+    let mut inst = Instance::new(m, tape, trap_at, cap)?;
+    let f = m
+        .exports
+        .iter()
+        .find(|e| e.name == export && e.kind == ExtKind::Func)
+        .map(|e| e.index)
+        .ok_or_else(|| format!("no exported function {export}"))?;
+    let result = inst.call(f, args, 0);
+    let mut h: u64 = 0xcbf29ce484222325;
+    for mem in &inst.mems {
+        // only the first page is ever written by generated programs beyond data segments
+        for b in mem.iter().take(65536) {
+            h ^= *b as u64;
+            h = h.wrapping_mul(0x100000001b3);
+        }
+    }
+    Ok(RunOut {
+        result,
+        trace: inst.host.trace,
+        globals: inst.globals,
+        mem_digest: h,
+        steps: inst.steps,
+    })
+}
+
+/// Hand-checked programs covering every supported opcode family, block-type shape and branch form.
 pub fn selftest() -> Result<(), String> {
+    let run = |wat: &str, export: &str, args: Vec<Val>, tape: Vec<i32>| -> Result<RunOut, String> {
+        let bytes = wat::parse_str(wat).map_err(|e| e.to_string())?;
+        validate(&bytes)?;
+        let m = crate::decode::decode(&bytes)?;
+        run_export(&m, export, args, tape, None, 100_000)
+    };
+    let imports = r#"(import "env" "mark" (func $mark (param i32))) (import "env" "probe" (func $probe (param i32)))
+        (import "env" "choose" (func $choose (result i32))) (import "env" "sink" (func $sink (param i64)))"#;
+    let expect = |name: &str, out: Result<RunOut, String>, res: Result<Vec<Val>, Trap>, marks: Vec<i32>| -> Result<(), String> {
+        let out = out.map_err(|e| format!("{name}: {e}"))?;
+        let got = match out.result {
+            Ok(v) => Ok(v),
+            Err(Stop::Trap(t)) => Err(t),
+            Err(other) => return Err(format!("{name}: stopped {:?}", other)),
+        };
+        if got != res {
+            return Err(format!("{name}: result {:?} expected {:?}", got, res));
+        }
+        let m: Vec<i32> = out.trace.iter().filter_map(|e| if let Ev::Mark(k) = e { Some(*k) } else { None }).collect();
+        if m != marks {
+            return Err(format!("{name}: marks {:?} expected {:?}", m, marks));
+        }
+        Ok(())
+    };
+    // arithmetic, locals, multi-value block, loop with counter, br_if, br_table to several depths
+    let w1 = format!(
+        r#"(module {imports} (type $t (func (result i32 i32)))
+        (func (export "f") (param i32) (result i32) (local i32 i32)
+          (local.set 1 (i32.const 3))
+          (block $out
+            (loop $l
+              (call $mark (i32.const 1))
+              (local.set 2 (i32.add (local.get 2) (local.get 0)))
+              (local.tee 1 (i32.sub (local.get 1) (i32.const 1)))
+              (br_if $l)
+              (call $mark (i32.const 2))
+              (br $out))
+            (call $mark (i32.const 99)))
+          (block (type $t) (i32.const 5) (i32.const 6))
+          (i32.add) (local.get 2) (i32.add)))"#
+    );
+    expect("loop/multivalue", run(&w1, "f", vec![Val::I32(7)], vec![]), Ok(vec![Val::I32(32)]), vec![1, 1, 1, 2])?;
+    let w2 = format!(
+        r#"(module {imports}
+        (func (export "f") (param i32) (result i32)
+          (block $a (block $b (block $c
+            (br_table $c $b $a $c (local.get 0)))
+            (call $mark (i32.const 10)) (return (i32.const 100)))
+            (call $mark (i32.const 20)) (return (i32.const 200)))
+          (call $mark (i32.const 30)) (i32.const 300)))"#
+    );
+    expect("br_table 0", run(&w2, "f", vec![Val::I32(0)], vec![]), Ok(vec![Val::I32(100)]), vec![10])?;
+    expect("br_table 1", run(&w2, "f", vec![Val::I32(1)], vec![]), Ok(vec![Val::I32(200)]), vec![20])?;
+    expect("br_table 2", run(&w2, "f", vec![Val::I32(2)], vec![]), Ok(vec![Val::I32(300)]), vec![30])?;
+    expect("br_table default", run(&w2, "f", vec![Val::I32(9)], vec![]), Ok(vec![Val::I32(100)]), vec![10])?;
+    // if/else with result, choose tape, memory, globals, calls, traps
+    let w3 = format!(
+        r#"(module {imports} (memory 1) (global $g (mut i64) (i64.const 5))
+        (func $callee (param i32) (result i32) (call $mark (i32.const 7)) (i32.mul (local.get 0) (i32.const 2)))
+        (func (export "f") (param i32) (result i32)
+          (i32.store offset=4 (i32.const 8) (i32.const 0x01020304))
+          (if (result i32) (call $choose)
+            (then (call $mark (i32.const 1)) (i32.load8_u offset=4 (i32.const 9)))
+            (else (call $mark (i32.const 2)) (i32.load16_s offset=4 (i32.const 10))))
+          (global.set $g (i64.add (global.get $g) (i64.extend_i32_s (local.get 0))))
+          (call $sink (global.get $g))
+          (call $callee)
+          (i32.div_s (local.get 0))))"#
+    );
+    expect("if then", run(&w3, "f", vec![Val::I32(2)], vec![1]), Ok(vec![Val::I32(3)]), vec![1, 7])?;
+    expect("if else", run(&w3, "f", vec![Val::I32(2)], vec![0]), Ok(vec![Val::I32(0x0102)]), vec![2, 7])?;
+    expect("div zero", run(&w3, "f", vec![Val::I32(0)], vec![1]), Err(Trap::DivZero), vec![1, 7])?;
+    let w4 = format!(
+        r#"(module {imports} (memory 1)
+        (func (export "f") (param i32) (result i32)
+          (if (local.get 0) (then (call $mark (i32.const 1)) unreachable))
+          (if (i32.eqz (local.get 0)) (then) (else (call $mark (i32.const 5))))
+          (i32.load (i32.const 65533))))"#
+    );
+    expect("unreachable", run(&w4, "f", vec![Val::I32(1)], vec![]), Err(Trap::Unreachable), vec![1])?;
+    expect("oob", run(&w4, "f", vec![Val::I32(0)], vec![]), Err(Trap::Oob), vec![])?;
+    // branch to function label with value, br_if fallthrough keeps operand, select, i64 ops
+    let w5 = format!(
+        r#"(module {imports}
+        (func (export "f") (param i32) (result i32)
+          (block (i32.const 11) (br_if 1 (local.get 0)) (drop))
+          (call $mark (i32.const 3))
+          (select (i32.const 1) (i32.const 2) (i64.lt_u (i64.const -1) (i64.const 1)))))"#
+    );
+    expect("br_if func label", run(&w5, "f", vec![Val::I32(1)], vec![]), Ok(vec![Val::I32(11)]), vec![])?;
+    expect("br_if fallthrough", run(&w5, "f", vec![Val::I32(0)], vec![]), Ok(vec![Val::I32(2)]), vec![3])?;
+    // loop with parameters (function-type block), nested if in loop, br to loop with value
+    let w6 = format!(
+        r#"(module {imports} (type $lp (func (param i32) (result i32)))
+        (func (export "f") (param i32) (result i32)
+          (local.get 0)
+          (loop $l (type $lp)
+            (call $mark (i32.const 4))
+            (i32.sub (i32.const 1))
+            (local.tee 0)
+            (local.get 0)
+            (if (param i32) (result i32) (then (br $l)) (else))
+          )))"#
+    );
+    expect("loop params", run(&w6, "f", vec![Val::I32(3)], vec![]), Ok(vec![Val::I32(0)]), vec![4, 4, 4])?;
     Ok(())
 }
